@@ -70,7 +70,9 @@ package generic
 //@   ensures #failed-implies-contains result.1 == nil && result.0.Failed != nil ==> containsAnyS(result.0.Result, result.0.FailedWhenContains)
 //@   ensures #contains-implies-failed result.1 == nil && validFWC(result.0.FailedWhenContains) && containsAnyS(result.0.Result, result.0.FailedWhenContains) ==> result.0.Failed != nil
 
-//@ func (*Driver).SendCommands [C13]
+//@ func (*Driver).SendCommands [C13 C01]
+//@   at call! sendCommand#1 assert [C01] #every-command-of-the-batch-is-sent-with-the-operation-options arg1 == op && arg2 === opts
+//@   at call! sendCommand#2 assert [C01] #the-last-command-too arg0 == commands[len(commands) - 1] && arg1 == op && arg2 === opts
 //@   requires RI(d.Channel.Q) && d.Channel.PromptSearchDepth >= 0
 //@   modifies sent, alloc(), optlog
 //@   ensures #empty-list len(commands) == 0 ==> isErr(result.1, util.ErrNoOp) && sent == old(sent)
